@@ -9,6 +9,9 @@
     `raise Notify(4, 0, …)`                        in `KA.send_if_needed`
     `raise Notify(5, 1, …)`                        in `Peer._read_open` (TimeoutError handler)
     `asyncio.wait_for(read_message(), timeout=0.1)` in `Peer._main`
+    `asyncio.wait_for(self.proto.read_keepalive(), timeout=int(holdtime) or None)` … `raise Notify(4, 0, …)`
+                                                   in `Peer._read_ka` (OPENCONFIRM; absent → `openConfirmHasTimer = false`)
+    `raise Notify(5, 2)`                           in `Protocol.read_keepalive` (first message is not a KEEPALIVE)
 * default of `exabgp.bgp.openwait`.
 Anything that does not have the expected shape raises (= translator error = broken obligation).
 """
@@ -94,6 +97,32 @@ def generate() -> dict[str, str]:
     read_timeout_ms = round(float(kwm['timeout'].value) * 1000)
     assert read_timeout_ms / 1000 == float(kwm['timeout'].value)
 
+    # OPENCONFIRM: the wait for the first KEEPALIVE
+    rk = _fn(peer_tree, '_read_ka')
+    oc_has_timer, oc_notify = False, (0, 0)
+    wfs = _calls(rk, 'wait_for')
+    if wfs:
+        wfk = _one(wfs, 'wait_for in _read_ka')
+        assert 'read_keepalive' in ast.dump(wfk.args[0]), ast.dump(wfk)
+        kwk = {k.arg: k.value for k in wfk.keywords}
+        tmo = kwk.get('timeout')
+        # timeout = int(<negotiated hold time>) or None : whole seconds of the hold time, no timer when it is 0
+        assert isinstance(tmo, ast.BoolOp) and isinstance(tmo.op, ast.Or) and len(tmo.values) == 2, ast.dump(wfk)
+        a, b = tmo.values
+        assert isinstance(a, ast.Call) and getattr(a.func, 'id', None) == 'int' and isinstance(a.args[0], ast.Name), ast.dump(a)
+        assert isinstance(b, ast.Constant) and b.value is None, ast.dump(b)
+        src_var = a.args[0].id
+        asg = [n for n in ast.walk(rk) if isinstance(n, ast.Assign) and getattr(n.targets[0], 'id', None) == src_var]
+        assert 'negotiated' in ast.dump(_one(asg, f'assignment to {src_var}').value) and 'holdtime' in ast.dump(asg[0].value)
+        hk = _one([x for x in ast.walk(rk) if isinstance(x, ast.ExceptHandler)], 'except handler in _read_ka')
+        assert 'TimeoutError' in ast.dump(hk.type), ast.dump(hk.type)
+        oc_notify = _ints(_one(_calls(hk, 'Notify'), 'Notify in _read_ka handler'), [0, 1])
+        oc_has_timer = True
+    from exabgp.reactor import protocol as proto_mod
+
+    proto_tree = ast.parse(textwrap.dedent(inspect.getsource(proto_mod.Protocol)))
+    oc_unexpected = _ints(_one(_calls(_fn(proto_tree, 'read_keepalive'), 'Notify'), 'Notify in read_keepalive'), [0, 1])
+
     timer_tree = ast.parse(inspect.getsource(timer_mod))
     h0ka = _ints(_one(_calls(_fn(timer_tree, 'check_ka'), 'Notify'), 'Notify in check_ka'), [0, 1])
     ka_tree = ast.parse(inspect.getsource(ka_mod))
@@ -132,6 +161,12 @@ def kaNetNotify : Nat × Nat := {pair(kanet)}
 def openWaitNotify : Nat × Nat := {pair(openwait)}
 /-- `asyncio.wait_for(self.proto.read_message(), timeout=…)` in `Peer._main`, in ms -/
 def readTimeoutMs : Nat := {read_timeout_ms}
+/-- `Peer._read_ka` awaits the first KEEPALIVE under `asyncio.wait_for(…, timeout=int(holdtime) or None)` -/
+def openConfirmHasTimer : Bool := {'true' if oc_has_timer else 'false'}
+/-- `raise Notify(code, subcode, …)` in `Peer._read_ka` (asyncio.TimeoutError); (0, 0) when there is no timer -/
+def openConfirmNotify : Nat × Nat := {pair(oc_notify)}
+/-- `raise Notify(code, subcode)` in `Protocol.read_keepalive` (the first message is not a KEEPALIVE) -/
+def openConfirmUnexpected : Nat × Nat := {pair(oc_unexpected)}
 /-- default of `exabgp.bgp.openwait`, seconds -/
 def openWaitDefaultS : Nat := {default_wait}
 
